@@ -181,7 +181,14 @@ func Expected(v xp10.Value) string {
 // reference values of its nodes.
 func ScalarTree() (*mock.Tree, map[string]xp10.Value) {
 	t := mock.NewTree()
-	ds := func(d ...xpath.Datum) xpath.Datum { return xpath.NewDatumSliceDatum(d) }
+	// (leaf-list values are handed out the way an appending data tree would hold them: with spare
+	// capacity behind the length - it belongs to the tree, a run must not write there)
+	ds := func(d ...xpath.Datum) xpath.Datum {
+		full := make([]xpath.Datum, len(d)+4)
+		copy(full, d)
+		t.Spare = append(t.Spare, full)
+		return xpath.NewDatumSliceDatum(full[:len(d)])
+	}
 	t.ByName = map[string]xpath.Datum{
 		"n5":     xpath.NewNumDatum(5),
 		"n0":     xpath.NewNumDatum(0),
